@@ -8,8 +8,21 @@ package align
 // bounds: rows n<=2, columns L<=5, residues = any IUPAC DNA code in both cases or - . * (U excluded)
 // outside: L>5, n>2, RNA U (complement of U is A by design; checked in H_C06_revcomp_u)
 func H_C06_revcomp() {
-	n := nondetRange(1, 2)
-	L := nondetRange(1, 5)
+	vfC06Revcomp(2, 5)
+	verifReach("completed")
+}
+
+// H_C06_revcomp_deep: as H_C06_revcomp on larger alignments.
+// bounds: rows n<=3, columns L<=9, residues as H_C06_revcomp
+//verif: tier=thorough
+func H_C06_revcomp_deep() {
+	vfC06Revcomp(3, 9)
+	verifReach("completed")
+}
+
+func vfC06Revcomp(maxN, maxL int) {
+	n := nondetRange(1, maxN)
+	L := nondetRange(1, maxL)
 	al, orig := vfSymAlign(NUCLEOTIDS, n, L, func(c uint8) bool { return vfIsIupacDNA(c, false) })
 	err := al.ReverseComplement()
 	verifReach("revcomp")
@@ -29,8 +42,21 @@ func H_C06_revcomp() {
 // H_C06_revcomp_involution: applying ReverseComplement twice restores the original.
 // bounds: rows n<=2, columns L<=7 (thorough), L<=5 (quick); IUPAC DNA both cases and - . *, U excluded
 func H_C06_revcomp_involution() {
-	n := nondetRange(1, 2)
-	L := nondetRange(0, 5)
+	vfC06Involution(2, 5)
+	verifReach("completed")
+}
+
+// H_C06_revcomp_involution_deep: as H_C06_revcomp_involution on larger alignments.
+// bounds: rows n<=3, columns L<=9
+//verif: tier=thorough
+func H_C06_revcomp_involution_deep() {
+	vfC06Involution(3, 9)
+	verifReach("completed")
+}
+
+func vfC06Involution(maxN, maxL int) {
+	n := nondetRange(1, maxN)
+	L := nondetRange(0, maxL)
 	al, orig := vfSymAlign(NUCLEOTIDS, n, L, func(c uint8) bool { return vfIsIupacDNA(c, false) })
 	verifAssert(al.ReverseComplement() == nil, "no error")
 	verifAssert(al.ReverseComplement() == nil, "no error twice")
@@ -124,8 +150,21 @@ func vfLower(c uint8) uint8 {
 // bounds: n<=2, L<=4, residues any printable ASCII byte 0x21..0x7e
 // outside: bytes >= 0x80
 func H_C06_case() {
-	n := nondetRange(1, 2)
-	L := nondetRange(1, 4)
+	vfC06Case(2, 4)
+	verifReach("completed")
+}
+
+// H_C06_case_deep: as H_C06_case on larger alignments.
+// bounds: n<=3, L<=7, residues any printable ASCII byte
+//verif: tier=thorough
+func H_C06_case_deep() {
+	vfC06Case(3, 7)
+	verifReach("completed")
+}
+
+func vfC06Case(maxN, maxL int) {
+	n := nondetRange(1, maxN)
+	L := nondetRange(1, maxL)
 	up := nondetRange(0, 1) == 1
 	al, orig := vfSymAlign(NUCLEOTIDS, n, L, func(c uint8) bool { return c >= 0x21 && c <= 0x7e })
 	apply := func() {
@@ -156,8 +195,21 @@ func H_C06_case() {
 // H_C06_unalign: Unalign removes exactly the gap characters and keeps everything else in order.
 // bounds: n<=2, L<=4, residues printable ASCII
 func H_C06_unalign() {
-	n := nondetRange(1, 2)
-	L := nondetRange(1, 4)
+	vfC06Unalign(2, 4)
+	verifReach("completed")
+}
+
+// H_C06_unalign_deep: as H_C06_unalign on larger alignments.
+// bounds: n<=2, L<=7, residues printable ASCII (every gap pattern is a separate path: 2^(n*L))
+//verif: tier=thorough
+func H_C06_unalign_deep() {
+	vfC06Unalign(2, 7)
+	verifReach("completed")
+}
+
+func vfC06Unalign(maxN, maxL int) {
+	n := nondetRange(1, maxN)
+	L := nondetRange(1, maxL)
 	al, orig := vfSymAlign(NUCLEOTIDS, n, L, func(c uint8) bool { return c >= 0x21 && c <= 0x7e })
 	un := al.Unalign()
 	verifReach("unalign")
